@@ -32,7 +32,7 @@ let handle fields impl : string option * string list =
   | ["fc"; _; _; _; _; st; _; ";"; reqid; cid; recs] ->
     let nodelist = if recs = "." then [] else List.map (fun s -> fst (parse_rec s)) (split ',' recs) in
     let requester = nhex reqid and cid = nhex cid in
-    let stv = if st = "N" then St_NotFound else if st = "E" then St_Error
+    let stv = if st = "N" || starts st "N@" then St_NotFound else if st = "E" || starts st "E:" then St_Error
       else St_Found (b (Util.bytes_of_hex (String.sub st 2 (String.length st - 2)))) in
     let find t = if t = "?" then None else List.find_opt (fun r -> tag_of r = int_of_string t) nodelist in
     let parts = split ' ' impl in
@@ -66,6 +66,9 @@ let handle fields impl : string option * string list =
      | St_Found c, ["connid"; _] -> if List.length (ub c) <= int_n findcontent_max_payload then add "findcontent-small-content-not-inline"
      | St_Found _, ("enrs" :: _) -> add "findcontent-held-content-not-returned"
      | St_NotFound, ("raw" :: _) | St_NotFound, ("connid" :: _) -> add "findcontent-wrong-bytes content-returned-that-is-not-held"
+     | St_Error, ("raw" :: _) | St_Error, ("connid" :: _) | St_Error, ("enrs" :: _) ->
+       (* the store could not be read: whatever is answered is not the stored content (the unchanged code answers nothing) *)
+       add ("findcontent-answers-content-on-storage-error " ^ (match parts with k :: l :: _ -> k ^ "-" ^ l | _ -> ""))
      | _ -> ());
     (match parts with
      | ["enrs"; _; _] ->
